@@ -173,8 +173,7 @@ def inline_call(b, bb, c):
         nb['term'] = tt
         b['blocks'].append(nb)
     b.setdefault('inlined', []).append(c['path'])
-    for pr in c.get('promoted', []):
-        pass
+    _resolve_ref_aliases(b, lbase)
     # promoted constants of the callee are referenced by index: append and remap
     if c.get('promoted'):
         off = len(b.get('promoted', []))
@@ -243,6 +242,477 @@ def apply_inlining(doc, inventory, depth=3):
     return done
 
 
+# --------------------------------------------------------------------------------------
+# iterator consumers written as method calls are loops: `it.for_each(|x| body)` == `for x in it { body }`
+
+
+def _unique_closure_def(b, local):
+    """path of the closure aggregate assigned to `local` if that is its only definition"""
+    found = []
+    for blk in b['blocks']:
+        for st in blk['stmts']:
+            if st['k'] == 'assign' and st['place']['local'] == local and not st['place']['proj']:
+                found.append(st['rv'])
+        t = blk['term']
+        if t['k'] == 'call' and t['dest']['local'] == local and not t['dest']['proj']:
+            found.append(None)
+    if len(found) == 1 and found[0] is not None and found[0]['k'] == 'agg' and found[0]['agg']['k'] == 'closure':
+        return found[0]['agg']['path']
+    return None
+
+
+def _unique_call_def(b, local):
+    """the call terminator that is the only definition of `local`, if any"""
+    found = []
+    for blk in b['blocks']:
+        for st in blk['stmts']:
+            if st['k'] == 'assign' and st['place']['local'] == local and not st['place']['proj']:
+                found.append(None)
+        t = blk['term']
+        if t['k'] == 'call' and t['dest']['local'] == local and not t['dest']['proj']:
+            found.append(t)
+    return found[0] if len(found) == 1 else None
+
+
+def _resolve_ref_aliases(b, first_new_local):
+    """After grafting: a grafted local that merely holds `&X` / `&mut X` of a caller place (a by-reference argument, possibly passed on through
+    temporaries) is replaced in `*local` accesses by X itself, so that writes through the reference are writes of the caller's variable."""
+    import copy
+    ndefs, ref_of, copy_of = {}, {}, {}
+    for blk in b['blocks']:
+        for st in blk['stmts']:
+            if st['k'] == 'assign' and not st['place']['proj']:
+                l = st['place']['local']
+                ndefs[l] = ndefs.get(l, 0) + 1
+                rv = st['rv']
+                if rv['k'] == 'ref':
+                    ref_of[l] = rv['place']
+                elif rv['k'] == 'use' and rv['op'].get('k') in ('copy', 'move') and not rv['op']['place']['proj']:
+                    copy_of[l] = rv['op']['place']['local']
+        t = blk['term']
+        if t['k'] == 'call' and not t['dest']['proj']:
+            ndefs[t['dest']['local']] = ndefs.get(t['dest']['local'], 0) + 1
+    nargs = b.get('arg_count', 0)
+
+    def stable(pl):
+        # the referenced place must denote fixed storage: derefs only of single-definition locals or parameters
+        if any(p['k'] == 'deref' for p in pl['proj']):
+            l = pl['local']
+            return (1 <= l <= nargs and ndefs.get(l, 0) == 0) or ndefs.get(l, 0) == 1
+        return True
+
+    alias = {}
+    for u in range(first_new_local, len(b['locals'])):
+        if ndefs.get(u) != 1:
+            continue
+        x = u
+        for _ in range(6):
+            if x in ref_of and ndefs.get(x) == 1:
+                # a reborrow `&mut *r` refers to what r refers to
+                pl = ref_of[x]
+                if pl['proj'] and pl['proj'][0]['k'] == 'deref' and len(pl['proj']) == 1 and (pl['local'] in ref_of or pl['local'] in copy_of) and ndefs.get(pl['local']) == 1:
+                    x = pl['local']
+                    continue
+                if stable(pl):
+                    alias[u] = pl
+                break
+            if x in copy_of and ndefs.get(x) == 1:
+                x = copy_of[x]
+                continue
+            break
+    if not alias:
+        return
+
+    def g(pl):
+        if pl['local'] in alias and pl['proj'] and pl['proj'][0]['k'] == 'deref':
+            x = alias[pl['local']]
+            return {'local': x['local'], 'proj': copy.deepcopy(x['proj']) + pl['proj'][1:]}
+        return pl
+
+    _map_places(b['blocks'], g)
+
+
+def _capture_places(b, clo_local):
+    """For the closure aggregate assigned to clo_local: per capture ('ref', place captured by reference) | ('val', place moved/copied) | None."""
+    agg = None
+    for blk in b['blocks']:
+        for st in blk['stmts']:
+            if st['k'] == 'assign' and st['place']['local'] == clo_local and not st['place']['proj'] and st['rv']['k'] == 'agg' and st['rv']['agg']['k'] == 'closure':
+                agg = st['rv']
+    if agg is None:
+        return []
+    out = []
+    for op in agg['ops']:
+        if op['k'] not in ('copy', 'move'):
+            out.append(None)
+            continue
+        pl = op['place']
+        if not pl['proj']:
+            # a temporary holding `&X` / `&mut X`?
+            defs = [st['rv'] for blk in b['blocks'] for st in blk['stmts']
+                    if st['k'] == 'assign' and st['place']['local'] == pl['local'] and not st['place']['proj']]
+            calls = [1 for blk in b['blocks'] if blk['term']['k'] == 'call' and blk['term']['dest']['local'] == pl['local'] and not blk['term']['dest']['proj']]
+            if len(defs) == 1 and not calls and defs[0]['k'] == 'ref':
+                out.append(('ref', defs[0]['place']))
+                continue
+        out.append(('val', pl))
+    return out
+
+
+def _map_places(blocks, f):
+    """apply f(place) -> place to every place of the given blocks (in place)"""
+    def op_(o):
+        if isinstance(o, dict) and o.get('k') in ('copy', 'move'):
+            o['place'] = f(o['place'])
+    for blk in blocks:
+        for st in blk['stmts']:
+            if 'place' in st:
+                st['place'] = f(st['place'])
+            rv = st.get('rv')
+            if isinstance(rv, dict):
+                if 'place' in rv:
+                    rv['place'] = f(rv['place'])
+                for k in ('op', 'l', 'r', 'x'):
+                    if k in rv:
+                        op_(rv[k])
+                for o in rv.get('ops', []):
+                    op_(o)
+        t = blk['term']
+        if t['k'] == 'call':
+            for a in t['args']:
+                op_(a)
+            t['dest'] = f(t['dest'])
+            if 'indirect' in t['func']:
+                op_(t['func']['indirect'])
+        elif t['k'] == 'switch':
+            op_(t['discr'])
+        elif t['k'] == 'drop':
+            t['place'] = f(t['place'])
+        elif t['k'] == 'assert':
+            op_(t['cond'])
+
+
+def _substitute_captures(blocks, env_local, caps):
+    """In a grafted closure body, an access to a captured variable through the environment becomes an access to the variable itself
+    (`*(*env).k` for a by-reference capture of X is X), so that reads and writes of captured state are reads and writes of the caller's locals."""
+    import copy
+
+    def f(pl):
+        if pl['local'] != env_local:
+            return pl
+        proj = pl['proj']
+        i = 0
+        if i < len(proj) and proj[i]['k'] == 'deref':
+            i += 1
+        if i >= len(proj) or proj[i]['k'] != 'field' or not (isinstance(proj[i].get('owner'), dict) and 'closure' in proj[i]['owner']):
+            return pl
+        k = proj[i].get('i')
+        if k is None or k >= len(caps) or caps[k] is None:
+            return pl
+        kind, target = caps[k]
+        rest = proj[i + 1:]
+        if kind == 'ref':
+            if rest and rest[0]['k'] == 'deref':
+                rest = rest[1:]
+            else:
+                return pl   # the reference itself is used as a value: keep the environment access
+        return {'local': target['local'], 'proj': copy.deepcopy(target['proj']) + rest}
+
+    # temporaries that hold the captured reference itself (`_t = (*env).k`, then `*_t = v`): they alias the captured variable
+    def env_capture(pl):
+        if pl['local'] != env_local:
+            return None
+        proj = pl['proj']
+        i = 1 if proj and proj[0]['k'] == 'deref' else 0
+        if i < len(proj) and proj[i]['k'] == 'field' and isinstance(proj[i].get('owner'), dict) and 'closure' in proj[i]['owner'] and len(proj) == i + 1:
+            k = proj[i].get('i')
+            if k is not None and k < len(caps) and caps[k] is not None and caps[k][0] == 'ref':
+                return caps[k][1]
+        return None
+
+    ndefs = {}
+    alias = {}
+    for blk in blocks:
+        for st in blk['stmts']:
+            if st['k'] == 'assign' and not st['place']['proj']:
+                l = st['place']['local']
+                ndefs[l] = ndefs.get(l, 0) + 1
+                rv = st['rv']
+                src = None
+                if rv['k'] == 'use' and rv['op'].get('k') in ('copy', 'move'):
+                    src = rv['op']['place']
+                elif rv['k'] in ('ref', 'copy_for_deref') and rv['place']['proj'] and rv['place']['proj'][-1]['k'] == 'deref':
+                    # reborrow `&mut *(*env).k`
+                    src = {'local': rv['place']['local'], 'proj': rv['place']['proj'][:-1]}
+                if src is not None:
+                    x = env_capture(src)
+                    if x is not None:
+                        alias[l] = x
+        t = blk['term']
+        if t['k'] == 'call' and not t['dest']['proj']:
+            ndefs[t['dest']['local']] = ndefs.get(t['dest']['local'], 0) + 1
+    alias = {l: x for l, x in alias.items() if ndefs.get(l) == 1}
+
+    def g(pl):
+        if pl['local'] in alias and pl['proj'] and pl['proj'][0]['k'] == 'deref':
+            x = alias[pl['local']]
+            return {'local': x['local'], 'proj': copy.deepcopy(x['proj']) + pl['proj'][1:]}
+        return pl
+
+    if alias:
+        _map_places(blocks, g)
+    _map_places(blocks, f)
+
+
+def _thread_known_returns(b, grafted, ret_local, RET, H, EARLY):
+    """In a grafted closure returning Result<(), E>: where the value returned is statically Ok (`Ok(())` literal) or Err (`?` residual), route that
+    return directly to the loop header / the early exit instead of through the Ok/Err test at RET, so that no infeasible path
+    (an `Err` return that continues the loop) exists in the rewritten body.  Straight-line tails (drops, storage) are cloned."""
+    import copy
+
+    def single_succ(t):
+        if t['k'] in ('goto', 'drop'):
+            return t['target']
+        return None
+
+    for g in list(grafted):
+        blk = b['blocks'][g]
+        kind = None
+        t = blk['term']
+        if t['k'] == 'call' and t['dest']['local'] == ret_local and not t['dest']['proj']:
+            if t['func'].get('name') == 'from_residual':
+                kind = 'Err'
+            nxt_key = 'target'
+        else:
+            for st in blk['stmts']:
+                if st['k'] == 'assign' and st['place']['local'] == ret_local and not st['place']['proj']:
+                    rv = st['rv']
+                    kind = rv['agg'].get('variant') if rv['k'] == 'agg' and rv['agg']['k'] == 'adt' and rv['agg'].get('variant') in ('Ok', 'Err') else None
+            nxt_key = 'target' if single_succ(t) is not None else None
+        if kind is None or nxt_key is None or t.get(nxt_key) is None:
+            continue
+        # follow the straight-line tail to RET
+        chain = []
+        n = t[nxt_key]
+        ok = False
+        for _ in range(10):
+            if n == RET:
+                ok = True
+                break
+            tb = b['blocks'][n]
+            if any(st['k'] == 'assign' and st['place']['local'] == ret_local for st in tb['stmts']):
+                break
+            nn = single_succ(tb['term'])
+            if nn is None:
+                break
+            chain.append(n)
+            n = nn
+        if not ok:
+            continue
+        final = H if kind == 'Ok' else EARLY
+        first = final
+        prev = None
+        for n in chain:
+            nb = copy.deepcopy(b['blocks'][n])
+            idx = len(b['blocks'])
+            b['blocks'].append(nb)
+            if prev is None:
+                first = idx
+            else:
+                b['blocks'][prev]['term']['target'] = idx
+            prev = idx
+        if prev is not None:
+            b['blocks'][prev]['term']['target'] = final
+        t[nxt_key] = first
+
+
+def desugar_for_each(b, bb, c, kind, it_op=None, clo_op=None, push=None):
+    """Rewrite the call terminating block bb of body dict b into the loop it abbreviates, with the closure body `c` grafted in:
+      kind 'for_each'  Iterator::for_each(it, closure)
+      kind 'try'       Iterator::try_for_each(it, closure) with a closure returning Result<(), E>
+      kind 'extend'    Extend::extend(&mut C, it) / Extend::extend(&mut C, map(it, closure)): one push per element (c may be None)
+    """
+    t = b['blocks'][bb]['term']
+    span = t['span']
+    if it_op is None:
+        it_op, clo_op = t['args']
+    dest, cont = t['dest'], t['target']
+    if c is None:
+        c = {'locals': [{'i': 0, 'ty': '<item>', 'mut': True}, {'i': 1, 'ty': '<env>', 'mut': False}, {'i': 2, 'ty': '<item>', 'mut': False}], 'debug': [], 'promoted': [], 'path': None,
+             'blocks': [{'cleanup': False, 'stmts': [{'k': 'assign', 'place': {'local': 0, 'proj': []}, 'rv': {'k': 'use', 'op': {'k': 'move', 'place': {'local': 2, 'proj': []}}}, 'span': span, 'exp': True}],
+                         'term': {'k': 'return', 'span': span, 'exp': True}}]}
+        clo_op = {'k': 'const', 'ty': '()', 'dbg': '()'}
+    nl = len(b['locals'])
+    l_ref, l_item, l_discr, l_rdiscr = nl, nl + 1, nl + 2, nl + 3
+    for k in range(4):
+        b['locals'].append({'i': nl + k, 'ty': '<desugared>', 'mut': True})
+    lbase = len(b['locals'])
+    lm = lambda l: l + lbase
+    for l in c['locals']:
+        b['locals'].append(dict(l, i=l['i'] + lbase))
+    for d in c['debug']:
+        v = d['value']
+        if 'local' in v and not any(p.get('owner') and isinstance(p.get('owner'), dict) and 'closure' in p['owner'] for p in v['proj']):
+            b['debug'].append({'name': d['name'], 'value': _rename_place(v, lm), 'arg': None})
+    B = len(b['blocks'])
+    H, S, U, E, BODY, RET = B, B + 1, B + 2, B + 3, B + 4, B + 5
+    bbase = B + 6
+    bm = lambda x: x + bbase
+    mk = lambda stmts, term: {'cleanup': False, 'stmts': stmts, 'term': term}
+    asg = lambda place, rv: {'k': 'assign', 'place': place, 'rv': rv, 'span': span, 'exp': True}
+    pl = lambda l, proj=(): {'local': l, 'proj': list(proj)}
+    f = t['func']
+    nextf = {'def': 'std::iter::Iterator::next', 'generic_args': f.get('generic_args', [])[:1], 'name': 'next', 'local': False,
+             'trait': 'std::iter::Iterator', 'self_ty': f.get('self_ty')}
+    b['blocks'][bb]['term'] = {'k': 'goto', 'target': H, 'span': span, 'exp': True}
+    blocks = []
+    # H: item = next(&mut it)
+    blocks.append(mk([asg(pl(l_ref), {'k': 'ref', 'mut': True, 'place': it_op['place']})],
+                     {'k': 'call', 'func': nextf, 'args': [{'k': 'move', 'place': pl(l_ref)}], 'dest': pl(l_item), 'target': S, 'span': span, 'exp': True}))
+    # S: match item
+    blocks.append(mk([asg(pl(l_discr), {'k': 'discr', 'place': pl(l_item), 'adt': 'std::option::Option', 'variants': [[0, 'None'], [1, 'Some']]})],
+                     {'k': 'switch', 'discr': {'k': 'move', 'place': pl(l_discr)}, 'discr_ty': 'isize', 'targets': [[0, E], [1, BODY]], 'otherwise': U, 'span': span, 'exp': True}))
+    blocks.append(mk([], {'k': 'unreachable', 'span': span, 'exp': True}))
+    # E: exhausted
+    if kind == 'try':
+        done = {'k': 'agg', 'agg': {'k': 'adt', 'path': 'std::result::Result', 'variant': 'Ok', 'variant_idx': 0, 'fields': ['0']}, 'ops': [{'k': 'const', 'ty': '()', 'dbg': '()'}]}
+    else:
+        done = {'k': 'use', 'op': {'k': 'const', 'ty': '()', 'dbg': '()'}}
+    blocks.append(mk([asg(dest, done)], {'k': 'goto', 'target': cont, 'span': span, 'exp': True} if cont is not None else {'k': 'unreachable', 'span': span, 'exp': True}))
+    # BODY: bind the closure environment and its argument
+    some0 = [{'k': 'downcast', 'variant': 'Some', 'i': 1}, {'k': 'field', 'i': 0, 'name': '0', 'owner': {'adt': 'std::option::Option', 'variant': 'Some'}, 'ty': '<item>'}]
+    blocks.append(mk([asg(pl(lm(1)), {'k': 'use', 'op': ({'k': 'copy', 'place': clo_op['place']} if 'place' in clo_op else clo_op)}),
+                      asg(pl(lm(2)), {'k': 'use', 'op': {'k': 'move', 'place': pl(l_item, some0)}})],
+                     {'k': 'goto', 'target': bm(0), 'span': span, 'exp': True}))
+    # RET: the closure returned
+    if kind == 'try':
+        blocks.append(mk([asg(pl(l_rdiscr), {'k': 'discr', 'place': pl(lm(0)), 'adt': 'std::result::Result', 'variants': [[0, 'Ok'], [1, 'Err']]})],
+                         {'k': 'switch', 'discr': {'k': 'move', 'place': pl(l_rdiscr)}, 'discr_ty': 'isize', 'targets': [[0, H], [1, bbase + len(c['blocks'])]], 'otherwise': U, 'span': span, 'exp': True}))
+    elif kind == 'extend':
+        blocks.append(mk([], {'k': 'call', 'func': push, 'args': [t['args'][0], {'k': 'move', 'place': pl(lm(0))}], 'dest': pl(l_rdiscr), 'target': H, 'span': span, 'exp': False}))
+    else:
+        blocks.append(mk([], {'k': 'goto', 'target': H, 'span': span, 'exp': True}))
+    b['blocks'].extend(blocks)
+    for blk in c['blocks']:
+        nb = {'cleanup': blk['cleanup'], 'stmts': [], 'term': None}
+        for st in blk['stmts']:
+            s2 = dict(st)
+            if 'place' in st:
+                s2['place'] = _rename_place(st['place'], lm)
+            if 'rv' in st:
+                s2['rv'] = _rename_rv(st['rv'], lm)
+            nb['stmts'].append(s2)
+        tt = dict(blk['term'])
+        k = tt['k']
+        if k == 'return':
+            tt = {'k': 'goto', 'target': RET, 'span': tt['span'], 'exp': True}
+        else:
+            for key in ('target', 'otherwise'):
+                if tt.get(key) is not None and isinstance(tt.get(key), int):
+                    tt[key] = bm(tt[key])
+            if k == 'switch':
+                tt['targets'] = [[v, bm(x)] for v, x in tt['targets']]
+                tt['discr'] = _rename_op(tt['discr'], lm)
+            if k == 'call':
+                tt['args'] = [_rename_op(a, lm) for a in tt['args']]
+                tt['dest'] = _rename_place(tt['dest'], lm)
+                if 'indirect' in tt['func']:
+                    tt['func'] = dict(tt['func'], indirect=_rename_op(tt['func']['indirect'], lm))
+            if k == 'drop':
+                tt['place'] = _rename_place(tt['place'], lm)
+            if k == 'assert':
+                tt['cond'] = _rename_op(tt['cond'], lm)
+            if k == 'other':
+                tt['succ'] = [bm(x) for x in tt.get('succ', [])]
+        nb['term'] = tt
+        b['blocks'].append(nb)
+    if kind == 'try':
+        # early exit: the closure's Err is the result of the whole call
+        EARLY = len(b['blocks'])
+        b['blocks'].append(mk([asg(dest, {'k': 'use', 'op': {'k': 'move', 'place': pl(lm(0))}})],
+                              {'k': 'goto', 'target': cont, 'span': span, 'exp': True} if cont is not None else {'k': 'unreachable', 'span': span, 'exp': True}))
+        _thread_known_returns(b, range(bbase, EARLY), lm(0), RET, H, EARLY)
+    if c['path'] is not None and clo_op is not None and 'place' in clo_op:
+        _substitute_captures(b['blocks'][bbase:], lm(1), _capture_places(b, clo_op['place']['local']))
+    if c['path'] is not None:
+        b.setdefault('inlined', []).append(c['path'])
+    if c.get('promoted'):
+        off = len(b.get('promoted', []))
+        b.setdefault('promoted', []).extend(c['promoted'])
+        for blk in b['blocks'][bbase:]:
+            for st in blk['stmts']:
+                _shift_promoted(st.get('rv'), off)
+            for a in blk['term'].get('args', []) if blk['term']['k'] == 'call' else []:
+                _shift_promoted_op(a, off)
+
+
+def apply_desugaring(doc, rounds=3):
+    """`Iterator::for_each` / `try_for_each` with a closure literal become explicit loops (see desugar_for_each). Returns the closure paths grafted."""
+    import copy
+    closures = {b['path']: b for b in doc['bodies'] if b['kind'] == 'Closure'}
+    pristine = {p: copy.deepcopy(b) for p, b in closures.items()}
+    done = []
+    for _ in range(rounds):
+        changed = False
+        for b in doc['bodies']:
+            n0 = len(b['blocks'])
+            for i in range(n0):
+                blk = b['blocks'][i]
+                t = blk['term']
+                if t['k'] != 'call' or blk['cleanup'] or t['target'] is None:
+                    continue
+                f = t['func']
+                if f.get('def') == 'std::iter::Extend::extend' and len(t['args']) == 2:
+                    sty = f.get('self_ty') or ''
+                    if sty.startswith('std::vec::Vec<'):
+                        push = {'def': 'std::vec::Vec::<T, A>::push', 'generic_args': [], 'name': 'push', 'local': False, 'impl_self': 'std::vec::Vec<T, A>'}
+                    elif sty.startswith('std::collections::VecDeque<'):
+                        push = {'def': 'std::collections::VecDeque::<T, A>::push_back', 'generic_args': [], 'name': 'push_back', 'local': False, 'impl_self': 'std::collections::VecDeque<T, A>'}
+                    else:
+                        continue
+                    src = t['args'][1]
+                    if src['k'] not in ('move', 'copy') or src['place']['proj']:
+                        continue
+                    mp = _unique_call_def(b, src['place']['local'])
+                    c = None
+                    it_op, clo_op = src, None
+                    if mp is not None and mp['func'].get('def') == 'std::iter::Iterator::map' and len(mp['args']) == 2:
+                        io, co = mp['args']
+                        if io['k'] in ('move', 'copy') and not io['place']['proj'] and co['k'] in ('move', 'copy') and not co['place']['proj']:
+                            path = _unique_closure_def(b, co['place']['local'])
+                            if path is not None and path in pristine and pristine[path]['arg_count'] == 2:
+                                c = copy.deepcopy(pristine[path])
+                                it_op, clo_op = io, co
+                                done.append((b['path'], path))
+                    desugar_for_each(b, i, c, 'extend', it_op=it_op, clo_op=clo_op, push=push)
+                    changed = True
+                    continue
+                if f.get('def') not in ('std::iter::Iterator::for_each', 'std::iter::Iterator::try_for_each') or len(t['args']) != 2:
+                    continue
+                it_op, clo_op = t['args']
+                if it_op['k'] not in ('move', 'copy') or it_op['place']['proj'] or clo_op['k'] not in ('move', 'copy') or clo_op['place']['proj']:
+                    continue
+                path = _unique_closure_def(b, clo_op['place']['local'])
+                if path is None or path not in pristine or path == b['path']:
+                    continue
+                c = pristine[path]
+                if c['arg_count'] != 2:
+                    continue
+                kind = 'for_each'
+                if f['def'].endswith('try_for_each'):
+                    if not c['locals'][0]['ty'].startswith('std::result::Result<(), '):
+                        continue
+                    kind = 'try'
+                desugar_for_each(b, i, copy.deepcopy(c), kind)
+                done.append((b['path'], path))
+                changed = True
+        if not changed:
+            break
+        # later rounds must graft the already-rewritten closure bodies (nested for_each)
+        pristine = {p: copy.deepcopy(b) for p, b in closures.items()}
+    return done
+
+
 def _qname_of_dict(b):
     st = b.get('impl_self')
     tr = b.get('impl_trait')
@@ -257,16 +727,19 @@ class Facts:
     def __init__(self, doc):
         self.doc = doc
         self.meta = doc['meta']
+        self.desugared = apply_desugaring(doc)
         self.inlined = apply_inlining(doc, _load_inventory())
-        self.helper_paths = {h for _, h in self.inlined}
+        self.helper_paths = {h for _, h in self.inlined} | {c for _, c in self.desugared}
         self.adts = {a['path']: a for a in doc['adts']}
-        self.bodies = [Body(self, b) for b in doc['bodies']]
-        self.by_path = {b.path: b for b in self.bodies}
+        self.all_bodies = [Body(self, b) for b in doc['bodies']]
+        self.by_path = {b.path: b for b in self.all_bodies}
+        # units of analysis: helpers grafted into their callers and closures rewritten into loops are not analysed a second time on their own
+        self.bodies = [b for b in self.all_bodies if b.path not in self.helper_paths]
         self.by_qname = {}
-        for b in self.bodies:
+        for b in self.all_bodies:
             self.by_qname.setdefault(b.qname, []).append(b)
         self.closures_of = {}
-        for b in self.bodies:
+        for b in self.all_bodies:
             if b.kind == 'Closure':
                 self.closures_of.setdefault(b.root, []).append(b)
 
@@ -290,7 +763,7 @@ class Facts:
 
     def units(self):
         """Bodies that are analysed as units of their own: helpers that were inlined into their callers are excluded."""
-        return [b for b in self.bodies if b.path not in self.helper_paths]
+        return list(self.bodies)
 
     def qs(self, qname):
         return list(self.by_qname.get(qname, []))
@@ -477,6 +950,48 @@ class Body:
                     d.setdefault(t['dest']['local'], []).append((i, 'term'))
             self._defs = d
         return self._defs
+
+    def upvar_index(self):
+        """closure body: {captured variable name: index in the closure's capture list}"""
+        out = {}
+
+        def scan_place(pl):
+            for p in pl.get('proj', []):
+                o = p.get('owner')
+                if p['k'] == 'field' and isinstance(o, dict) and 'closure' in o:
+                    n = p['name']
+                    if n.startswith('_ref__'):
+                        n = n[len('_ref__'):]
+                    out[n] = p['i']
+
+        def scan_op(op):
+            if isinstance(op, dict) and op.get('k') in ('copy', 'move'):
+                scan_place(op['place'])
+
+        for bl in self.blocks:
+            for st in bl['stmts']:
+                if 'place' in st:
+                    scan_place(st['place'])
+                rv = st.get('rv')
+                if isinstance(rv, dict):
+                    if 'place' in rv:
+                        scan_place(rv['place'])
+                    for k in ('op', 'l', 'r', 'x'):
+                        if k in rv:
+                            scan_op(rv[k])
+                    for o in rv.get('ops', []):
+                        scan_op(o)
+            t = bl['term']
+            for a in t.get('args', []) if t['k'] == 'call' else []:
+                scan_op(a)
+            if t['k'] == 'switch':
+                scan_op(t['discr'])
+            if t['k'] == 'call':
+                scan_place(t['dest'])
+        for d in self.debug:
+            if 'local' in d['value']:
+                scan_place(d['value'])
+        return out
 
     def closure_bodies(self):
         roots = {self.path} | set(self.b.get('inlined', []))
@@ -731,6 +1246,36 @@ class CFG:
                 st.extend(self.pred.get(n, []))
         return body
 
+    def loop_exits(self, header):
+        """Edges (a, b) that leave the natural loop of `header` without diverging: a in the loop, b outside, b != DIVERGE."""
+        body = self.loop_of(header)
+        out = []
+        for a in body:
+            for b_ in self.succ.get(a, []):
+                if b_ in body or b_ == DIVERGE:
+                    continue
+                if isinstance(b_, tuple):
+                    # a split edge: report (edge node, its target) unless it only diverges
+                    for c in self.succ.get(b_, []):
+                        if c != DIVERGE and not self._only_diverges(c):
+                            out.append((b_, c))
+                elif not self._only_diverges(b_):
+                    out.append((a, b_))
+        return out
+
+    def _only_diverges(self, n):
+        seen = set()
+        st = [n]
+        while st:
+            x = st.pop()
+            if x in seen:
+                continue
+            seen.add(x)
+            if x == EXIT:
+                return False
+            st.extend(self.succ.get(x, []))
+        return True
+
     def loop_headers(self):
         return sorted({h for _, h in self.back_edges()}, key=str)
 
@@ -958,6 +1503,11 @@ class Resolver:
             if k == 'field':
                 name = p['name']
                 owner = p.get('owner')
+                if isinstance(owner, dict) and 'closure' in owner and e[0] == 'closure' and p.get('i') is not None and p['i'] < len(e[2]):
+                    # the environment of a closure that was grafted into this body: a captured variable is the captured operand
+                    e = e[2][p['i']]
+                    variant = None
+                    continue
                 if isinstance(owner, dict) and 'closure' in owner:
                     n = name
                     if n.startswith('_ref__'):
@@ -1071,6 +1621,16 @@ class Resolver:
         args = tuple(self.operand(a, bb, n) for a in t['args'])
         if c.indirect:
             f = self.operand(t['func']['indirect'], bb, n)
+            # a tuple-variant / tuple-struct constructor passed around as a function value: calling it builds that aggregate
+            if f[0] == 'fn':
+                parts = f[1].split('::')
+                for cut in (1, 2):
+                    adt = self.body.facts.adts.get('::'.join(parts[:-cut])) if len(parts) > cut else None
+                    if adt is None:
+                        continue
+                    for v in adt['variants']:
+                        if v['name'] == parts[-1] and len(v['fields']) == len(args):
+                            return ('agg', ('adt', parts[-cut - 1] if cut == 1 else parts[-cut - 1], v['name'], tuple(fl['name'] for fl in v['fields'])), args)
             return ('callind', f, args, bb)
         if self.level >= 1 and c.name in TRANSPARENT_CALLS and (len(args) == 1 or (c.name == 'expect' and len(args) == 2)):
             # unwrap_or_else etc. are not in the set; expect/unwrap take the payload
@@ -1168,6 +1728,83 @@ def literals(body, R, bb):
     return out
 
 
+_COMP = {'Lt': 'Ge', 'Ge': 'Lt', 'Le': 'Gt', 'Gt': 'Le', 'Eq': 'Ne', 'Ne': 'Eq'}
+_SWAP = {'Lt': 'Gt', 'Gt': 'Lt', 'Le': 'Ge', 'Ge': 'Le', 'Eq': 'Eq', 'Ne': 'Ne'}
+_METH = {'PartialOrd::lt': 'Lt', 'PartialOrd::le': 'Le', 'PartialOrd::gt': 'Gt', 'PartialOrd::ge': 'Ge', 'PartialEq::eq': 'Eq', 'PartialEq::ne': 'Ne'}
+
+
+def comparison_spellings(lit):
+    """The other spellings of a comparison guard: `a < b` holds == `!(a >= b)` holds == `b > a` holds == `!(b <= a)` holds (NaN operands
+    aside, which make the negated forms differ; guards on NaN are outside every rule).  Rules may match whichever spelling they name."""
+    if lit[0] not in ('true', 'false'):
+        return []
+    x = lit[1]
+    if x[0] == 'bin' and x[1] in _COMP:
+        o, a, b = x[1], x[2], x[3]
+    elif x[0] == 'call' and x[1] in _METH and len(x[2]) == 2:
+        o, a, b = _METH[x[1]], x[2][0], x[2][1]
+    else:
+        return []
+    if lit[0] == 'false':
+        o = _COMP[o]
+    # now: `a o b` holds
+    out = [('true', ('bin', o, a, b)), ('false', ('bin', _COMP[o], a, b)), ('true', ('bin', _SWAP[o], b, a)), ('false', ('bin', _COMP[_SWAP[o]], b, a))]
+    return [v for v in out if v != lit]
+
+
+_DP_CACHE = {}
+
+
+def discr_predicate(F, qname):
+    """For a crate-local `fn(&self) -> bool` whose result depends only on the discriminant of self: (variants where true, variants where false)."""
+    key = (id(F), qname)
+    if key in _DP_CACHE:
+        return _DP_CACHE[key]
+    _DP_CACHE[key] = None
+    try:
+        b = F.q(qname)
+    except KeyError:
+        return None
+    if b is None or b.kind == 'Closure' or b.arg_count != 1 or b.ret_ty() != 'bool' or not b.self_base:
+        return None
+    adt = F.adt(b.self_base)
+    if adt is None or adt.get('kind') != 'Enum':
+        return None
+    allv = {v['name'] for v in adt['variants']}
+    R = Resolver(b)
+    tset, fset = set(), set()
+    ut = uf = False
+    for i, j, st in b.stmts():
+        if st['k'] == 'assign' and st['place']['local'] == 0 and not st['place']['proj']:
+            v = R.rvalue(st['rv'], i, j)
+            lits = [l for l in literals(b, R, i) if l[0] == 'is' and l[1] == ('param', 'self')]
+            if v == ('const', True):
+                if lits:
+                    tset |= set(lits[0][2])
+                else:
+                    ut = True
+            elif v == ('const', False):
+                if lits:
+                    fset |= set(lits[0][2])
+                else:
+                    uf = True
+            else:
+                return None
+    for i, t in b.calls():
+        if t['dest']['local'] == 0 and not t['dest']['proj']:
+            return None
+    if ut and uf:
+        return None
+    if ut:
+        tset = allv - fset
+    if uf:
+        fset = allv - tset
+    if tset & fset or (tset | fset) != allv:
+        return None
+    _DP_CACHE[key] = (frozenset(tset), frozenset(fset))
+    return _DP_CACHE[key]
+
+
 def edge_literal(body, R, sb, lab):
     if lab is None:
         return None
@@ -1197,7 +1834,14 @@ def edge_literal(body, R, sb, lab):
             val = (listed[0] == 0)
         else:
             val = (v != 0)
-        return norm_bool(d, val)
+        lit = norm_bool(d, val)
+        # `x.is_v()` for a crate-local `fn(&self) -> bool` that only tests the discriminant of self is the test `x is {variants}`
+        e = lit[1]
+        if e[0] == 'call' and len(e[2]) == 1 and '::' in e[1]:
+            dp = discr_predicate(body.facts, e[1])
+            if dp is not None:
+                return ('is', e[2][0], dp[0] if lit[0] == 'true' else dp[1])
+        return lit
     if 'otherwise' in vs:
         rest = [x for x in listed if x not in vs]
         return ('notin', d, frozenset(rest))
@@ -1241,13 +1885,8 @@ def const_reach(body, R, env):
         k = t['k']
         nk = tuple(sorted(vals.items()))
         if k == 'switch':
-            d = None
-            op = t['discr']
-            if op['k'] in ('copy', 'move') and not op['place']['proj']:
-                d = vals.get(op['place']['local'])
-            elif op['k'] == 'const':
-                d = _const_operand(op, env)
-            if d is None:
+            d = _const_opv(t['discr'], vals, env)
+            if d is None or isinstance(d, tuple):
                 for _, tgt in t['targets']:
                     work.append((tgt, nk))
                 work.append((t['otherwise'], nk))
@@ -1276,11 +1915,28 @@ def _const_operand(op, env):
     return None
 
 
+def _const_opv(op, vals, env):
+    """constant value of an operand: a known local, a component of a known tuple of constants, or a constant"""
+    if op['k'] in ('copy', 'move'):
+        v = vals.get(op['place']['local'])
+        for p in op['place']['proj']:
+            if p['k'] == 'deref':
+                continue
+            if p['k'] == 'field' and isinstance(v, tuple) and p.get('i') is not None and p['i'] < len(v):
+                v = v[p['i']]
+                continue
+            return None
+        return v
+    return _const_operand(op, env)
+
+
 def _const_val(rv, vals, env):
-    def opv(op):
-        if op['k'] in ('copy', 'move') and not op['place']['proj']:
-            return vals.get(op['place']['local'])
-        return _const_operand(op, env)
+    opv = lambda op: _const_opv(op, vals, env)
+    if rv['k'] == 'agg' and rv['agg']['k'] == 'tuple':
+        t = tuple(opv(o) for o in rv['ops'])
+        return t if any(x is not None for x in t) else None
+    if rv['k'] in ('ref', 'copy_for_deref'):
+        return _const_opv({'k': 'copy', 'place': rv['place']}, vals, env)
     if rv['k'] == 'use':
         return opv(rv['op'])
     if rv['k'] == 'unop' and rv['op'] == 'Not':
